@@ -70,7 +70,7 @@ def main(path):
     src=open(path).read(); tree=ast.parse(src)
     cls=[n for n in tree.body if isinstance(n,ast.ClassDef) and n.name=="ActionHistory"]
     if len(cls)!=1: raise Unsupported("class ActionHistory not found")
-    out=["(* generated by translate.py from %s  sha256=%s *)"%(path,hashlib.sha256(src.encode()).hexdigest()[:16]),
+    out=["(* generated by translate.py from %s  sha256=%s *)"%("src/funtracks/actions/action_history.py",hashlib.sha256(src.encode()).hexdigest()[:16]),
          "From Coq Require Import List Arith Bool ZArith.","Import ListNotations.","Open Scope Z_scope.",
          "Definition is_nil {A} (l:list A) := match l with [] => true | _ => false end.",
          "Section History_gen.","Variables (St Act : Type) (inv : St -> Act -> St * Act) (dA : Act).",
